@@ -31,6 +31,7 @@ Json gen(sim::Rng& rng, int tier)
         Json q = Json::object();
         int kind = static_cast<int>(rng.below(10));
         q["kind"] = kind < 3 ? "size" : kind < 4 ? "async" : kind < 5 ? "file" : kind < 8 ? "stream" : "astream";
+        if (rng.chance(0.12)) q["kind"] = "hints";
         q["tag"] = static_cast<long long>(tag += 10);
         q["size"] = snd + rcv + static_cast<long>(1000 + rng.below(tier ? 150000 : 60000));
         q["chunks"] = static_cast<int>(rng.range(2, 6));
@@ -83,7 +84,7 @@ void run(const Json& plan)
             w.make_file(std::to_string(tag), size);
             wt.target = "/file/" + std::to_string(tag);
             wt.body = actors::pattern(tag, size);
-        } else if (wt.kind == "stream" || wt.kind == "astream") {
+        } else if (wt.kind == "stream" || wt.kind == "astream" || wt.kind == "hints") {
             int ch = std::max(1, std::min(8, static_cast<int>(q.num("chunks", 2))));
             size_t n = std::max<size_t>(1, size / static_cast<size_t>(ch));
             wt.target = "/" + wt.kind + "/" + std::to_string(ch) + "/" + std::to_string(n) + "/" + std::to_string(tag);
